@@ -115,7 +115,7 @@ PROPS = {
         "jl": True,
         "module": "Props.C03",
         "namespace": "Jl.C03",
-        "extra_theorem_files": [("Proofs.Order", "Jl.Order"), ("Proofs.LineKeys", "Jl.LineLevel"), ("Proofs.LineValues", "Jl.LineValues"), ("Proofs.RowTie", "Jl.RowTie"), ("Proofs.FlowTie", "Jl.FlowTie")],
+        "extra_theorem_files": [("Proofs.Order", "Jl.Order"), ("Proofs.LineKeys", "Jl.LineLevel"), ("Proofs.LineValues", "Jl.LineValues"), ("Proofs.RowTie", "Jl.RowTie"), ("Proofs.FlowTie", "Jl.FlowTie"), ("Proofs.RowTieMarshal", "Jl.RowTie")],
         "rule": ("templates with 0-6 columns in non-alphabetical order (names incl. '', 'é', 'a.b'), hidden anywhere, sub-rows to depth 3; "
                  "input and output template share names and structure as jl builds them; inputs: every permutation of the declared keys "
                  "(<= 4 keys; thorough 5), missing keys, extra keys, objects/arrays with >= 2 members in non-alphabetical order under "
@@ -147,7 +147,7 @@ PROPS = {
         "jl": True,
         "module": "Props.C02",
         "namespace": "Jl.C02",
-        "extra_theorem_files": [("Proofs.JsonPrint", "Jl.JsonPrint"), ("Proofs.RoundTrip", "Jl.RoundTrip")],
+        "extra_theorem_files": [("Proofs.JsonPrint", "Jl.JsonPrint"), ("Proofs.RoundTrip", "Jl.RoundTrip"), ("Proofs.RowTieMarshal", "Jl.RowTie"), ("Proofs.RowTieText", "Jl.RowTie"), ("Proofs.FlowTieExport", "Jl.FlowTie"), ("Proofs.FlowTieImport", "Jl.FlowTie")],
         "rule": ("grammar-directed RFC 8259 objects: any member order, depth <= 4 random plus fixed depth 64, arrays of objects, empty "
                  "containers, every escape spelling (raw UTF-8, \\uXXXX, surrogate pairs, all short escapes, escaped and raw U+2028, DEL), "
                  "number spellings (-0, 1E+2, 0.10, 30-digit integers, 1e-400, 1e400), arbitrary insignificant whitespace; out-of-domain "
@@ -295,7 +295,7 @@ PROPS = {
         "kind": "c13",
         "module": "Props.C13",
         "namespace": "Jl.C13",
-        "extra_theorem_files": [("Proofs.Pairings", "Jl.Pairings"), ("Proofs.RowRoundTrip", "Jl.RowRoundTrip"), ("Proofs.RowRoundTripN", "Jl.RowRoundTripN"), ("Proofs.ValueTie", "Jl.ValueTie")],
+        "extra_theorem_files": [("Proofs.Pairings", "Jl.Pairings"), ("Proofs.RowRoundTrip", "Jl.RowRoundTrip"), ("Proofs.RowRoundTripN", "Jl.RowRoundTripN"), ("Proofs.ValueTie", "Jl.ValueTie"), ("Proofs.RowTieMarshal", "Jl.RowTie"), ("Proofs.RowTieText", "Jl.RowTie"), ("Proofs.FlowTieExport", "Jl.FlowTie"), ("Proofs.FlowTieImport", "Jl.FlowTie")],
         "rule": ("every pairing of 8 formats x (18 raw types + none) — the ~95 of the lossless table AND the pairings outside it (to confirm the "
                  "table is tight) — x boundary and random values of the raw type (integers: bounds, +-1, powers of two; floats: +-0, "
                  "subnormals, extremes, 2^53+1, NaN/Inf; strings: valid UTF-8 incl. escapes-needing characters, look-alikes, and ill-formed "
@@ -311,7 +311,7 @@ PROPS = {
         "kind": "c05",
         "module": "Props.C05",
         "namespace": "Jl.C05",
-        "extra_theorem_files": [("Proofs.Pairings", "Jl.Pairings"), ("Proofs.SelfReadable", "Jl.SelfReadable"), ("Proofs.LineFixedPoint", "Jl.LineFixedPoint"), ("Proofs.ValueTie", "Jl.ValueTie")],
+        "extra_theorem_files": [("Proofs.Pairings", "Jl.Pairings"), ("Proofs.SelfReadable", "Jl.SelfReadable"), ("Proofs.LineFixedPoint", "Jl.LineFixedPoint"), ("Proofs.ValueTie", "Jl.ValueTie"), ("Proofs.RowTieMarshal", "Jl.RowTie"), ("Proofs.RowTieText", "Jl.RowTie"), ("Proofs.FlowTieExport", "Jl.FlowTie"), ("Proofs.FlowTieImport", "Jl.FlowTie")],
         "rule": ("under process zones UTC, +05:30, -03:00, Europe/Paris, America/New_York: output templates of 1-5 columns whose descriptors are "
                  "drawn from the self-readable table (all 9 formats, raw types incl. none; hidden included), input templates equal to the "
                  "output template or with independent formats / raw types / auto, input lines with values chosen to be mostly accepted "
